@@ -175,7 +175,7 @@ fn prepare(rng : &mut Rng, sc : &Scenario, flavor : Flavor, out : &mut Out) -> P
 
 fn tracker_clone(t : &Tracker) -> Tracker
 {
-    Tracker{scenario : t.scenario.clone(), ever_targets : t.ever_targets.clone(), ledger : t.ledger.clone(), deterministic : t.deterministic, last_ok_build : t.last_ok_build.clone(), label : t.label.clone()}
+    Tracker{scenario : t.scenario.clone(), ever_targets : t.ever_targets.clone(), ledger : t.ledger.clone(), deterministic : t.deterministic, last_ok_build : t.last_ok_build.clone(), label : t.label.clone(), lost_by_ruler : t.lost_by_ruler.clone()}
 }
 
 /// C03: every command starts on final sources and nobody changes them afterwards
